@@ -25,6 +25,7 @@ import (
 	"github.com/jackalLabs/canine-chain/v4/app"
 	abci "github.com/tendermint/tendermint/abci/types"
 	tmed "github.com/tendermint/tendermint/crypto/ed25519"
+	tmenc "github.com/tendermint/tendermint/crypto/encoding"
 	"github.com/tendermint/tendermint/libs/log"
 	tmproto "github.com/tendermint/tendermint/proto/tendermint/types"
 	tmtypes "github.com/tendermint/tendermint/types"
@@ -40,6 +41,8 @@ type Chain struct {
 	Privs  []*secp256k1.PrivKey
 	InBlk  bool
 	home   string
+	// restarted: InitChain ran on a fresh application and its first block has not begun yet
+	restarted bool
 }
 
 // GenesisMutator lets a profile adjust the default genesis (params, seeded records).
@@ -135,6 +138,7 @@ func (c *Chain) Begin(dt time.Duration) (p interface{}) {
 			p = r
 		}
 	}()
+	c.restarted = false
 	c.A.BeginBlock(abci.RequestBeginBlock{Header: c.hdr()})
 	c.InBlk = true
 	return nil
@@ -142,6 +146,9 @@ func (c *Chain) Begin(dt time.Duration) (p interface{}) {
 
 // End finishes the block; returns the panic value if EndBlock panicked.
 func (c *Chain) End() (p interface{}, appHash []byte) {
+	if c.restarted { // nothing to end: the first block of the restarted application has not begun
+		return nil, nil
+	}
 	defer func() {
 		if r := recover(); r != nil {
 			p = r
@@ -155,7 +162,7 @@ func (c *Chain) End() (p interface{}, appHash []byte) {
 
 // NextBlock = End (if inside a block) + Begin.
 func (c *Chain) NextBlock(dt time.Duration) (p interface{}) {
-	if c.InBlk {
+	if c.InBlk && !c.restarted {
 		if p, _ := c.End(); p != nil {
 			return p
 		}
@@ -285,4 +292,54 @@ func (c *Chain) GovSetParams(ctx sdk.Context, subspace string, changes map[strin
 		}
 	}
 	return nil
+}
+
+// RestartInit does what a hard-fork restart of the network does, up to the first block: export the
+// whole application state (every module's ExportGenesis at the last committed height), start a
+// fresh application on an empty database and InitChain it from that export at the next height.
+// Afterwards the chain is "inside" the not yet begun first block: the imported state is readable
+// through Ctx() and Begin() starts the block that follows the last block of the old application.
+// Returns an error text when the chain's own export / import refuses.
+func (c *Chain) RestartInit() (errText string) {
+	defer func() {
+		if r := recover(); r != nil {
+			errText = fmt.Sprint("restart panic: ", r)
+		}
+	}()
+	if c.InBlk {
+		if p, _ := c.End(); p != nil {
+			return fmt.Sprint("EndBlock panic: ", p)
+		}
+	}
+	exp, err := c.A.ExportAppStateAndValidators(false, nil)
+	if err != nil {
+		return "export: " + err.Error()
+	}
+	if exp.Height != c.H+1 {
+		return fmt.Sprintf("export height %d, expected %d", exp.Height, c.H+1)
+	}
+	home, _ := os.MkdirTemp("", "verifharness")
+	a := app.NewJackalApp(log.NewNopLogger(), dbm.NewMemDB(), nil, true, map[int64]bool{}, home, 0, app.MakeEncodingConfig(), wasm.EnableAllProposals, app.EmptyBaseAppOptions{}, nil)
+	var vals []abci.ValidatorUpdate
+	for _, v := range exp.Validators {
+		pk, err := tmenc.PubKeyToProto(v.PubKey)
+		if err != nil {
+			return "validator key: " + err.Error()
+		}
+		vals = append(vals, abci.ValidatorUpdate{PubKey: pk, Power: v.Power})
+	}
+	a.InitChain(abci.RequestInitChain{ConsensusParams: exp.ConsensusParams, AppStateBytes: exp.AppState, Time: c.T, ChainId: "verif-1", InitialHeight: exp.Height, Validators: vals})
+	os.RemoveAll(c.home)
+	c.A, c.home = a, home
+	c.InBlk = true // the InitChain state lives in the deliver state until the first block commits
+	c.restarted = true
+	return ""
+}
+
+// Restart = RestartInit + the first block of the new application.
+func (c *Chain) Restart(dt time.Duration) (errText string, p interface{}) {
+	if e := c.RestartInit(); e != "" {
+		return e, nil
+	}
+	return "", c.Begin(dt)
 }
